@@ -4,7 +4,9 @@
 use crate::c11::{steps, workload, Step, Workload};
 use proptest::prelude::*;
 use serde::{Deserialize, Serialize};
-use shapefile::{Error, Shape, ShapeWriter};
+use shapefile::dbase;
+use shapefile::{Error, Shape, ShapeWriter, Writer};
+use std::convert::TryInto;
 use vlib::io::{is_marked, Dest, FaultMode};
 use vlib::kinds::*;
 use vlib::libops::*;
@@ -17,6 +19,12 @@ pub struct FaultCase {
     pub with_shx: bool,
     /// generated short-write schedule (bytes accepted per write call, cycled)
     pub chunks: Vec<usize>,
+    /// 0 = ShapeWriter, 1 = the complete Writer (shape + attribute row per call, healthy .dbf destination)
+    #[serde(default)]
+    pub route: u8,
+    /// index into vlib::io::FAULT_KINDS: the io::ErrorKind the injected failures carry
+    #[serde(default)]
+    pub kind: u8,
 }
 
 pub struct DestFaults;
@@ -32,8 +40,9 @@ impl Prop for DestFaults {
          with a marked io::Error. The harness brackets each API call with the destination's op counter: the call during which op k ran \
          must return Err(IoError(marked)) — not Ok, not a panic; a failed finalize is retried (after healing) and must then succeed, \
          and the completed run must leave files byte-identical to the clean run; dropping a writer on a failing destination must not \
-         panic. Short-write schedules {1,2,3,7 bytes per call, one generated sequence} must give byte-identical files. Inner evaluations = \
-         injected runs. Non-trivial: workload containing an explicit finalize (k then lands inside finalize / seek / flush calls)"
+         panic. Short-write schedules {1,2,3,7 bytes per call, one generated sequence} must give byte-identical files. One case in three drives the complete \
+         Writer (write_shape_and_record, healthy .dbf destination) instead of the ShapeWriter; the injected error carries one of ten \
+         io::ErrorKind values (Interrupted excluded: write_all retries it by contract). Inner evaluations = injected runs. Non-trivial: workload containing an explicit finalize (k then lands inside finalize / seek / flush calls)"
     }
     fn check(c: &FaultCase, ctx: &mut Ctx) -> Result<(), Fail> {
         struct F<'a>(&'a FaultCase, &'a mut Ctx);
@@ -66,8 +75,8 @@ impl RandomProp for DestFaults {
                 shx_samples: 0,
             })
         });
-        (prop_oneof![60 => workload(4, 0), 1 => big.boxed()], any::<bool>(), proptest::collection::vec(1usize..12, 1..6))
-            .prop_map(|(w, with_shx, chunks)| FaultCase { w, with_shx, chunks })
+        (prop_oneof![60 => workload(4, 0), 1 => big.boxed()], any::<bool>(), proptest::collection::vec(1usize..12, 1..6), prop_oneof![2 => Just(0u8), 1 => Just(1u8)], 0u8..vlib::io::FAULT_KINDS.len() as u8)
+            .prop_map(|(w, with_shx, chunks, route, kind)| FaultCase { w, with_shx, chunks, route, kind })
             .boxed()
     }
     fn cases(env: &Env) -> u64 {
@@ -82,10 +91,21 @@ struct RunOut {
 }
 
 /// One run of the workload. `fault` = (on shx?, mode). Returns the final bytes if the run completed.
-fn run<K: Kind>(shapes: &[K], st: &[Step], with_shx: bool, fault: Option<(bool, FaultMode)>, chunks: &[usize], ctx: &mut Ctx) -> Result<Option<RunOut>, Fail> {
+enum AnyW {
+    S(ShapeWriter<Dest>),
+    C(Writer<Dest>),
+}
+
+fn row(i: usize) -> dbase::Record {
+    let mut r = dbase::Record::default();
+    r.insert("idx".to_string(), dbase::FieldValue::Numeric(Some(i as f64)));
+    r
+}
+
+fn run<K: Kind>(shapes: &[K], st: &[Step], with_shx: bool, fault: Option<(bool, FaultMode)>, chunks: &[usize], route: u8, kind: u8, ctx: &mut Ctx) -> Result<Option<RunOut>, Fail> {
     let mk = |is_shx: bool| {
         let d = match fault {
-            Some((on_shx, m)) if on_shx == is_shx => Dest::with_fault(m),
+            Some((on_shx, m)) if on_shx == is_shx => Dest::with_fault_kind(m, kind),
             _ => Dest::new(),
         };
         d.0.borrow_mut().chunks = chunks.to_vec();
@@ -98,20 +118,33 @@ fn run<K: Kind>(shapes: &[K], st: &[Step], with_shx: bool, fault: Option<(bool, 
     let mut completed = true;
     let observed = std::cell::Cell::new(0usize);
     let res = guard(|| -> Result<(), Fail> {
-        let mut w = match &shx {
+        let sw = match &shx {
             Some(x) => ShapeWriter::with_shx(shp.clone(), x.clone()),
             None => ShapeWriter::new(shp.clone()),
+        };
+        let mut w = if route == 1 {
+            let tw = dbase::TableWriterBuilder::new().add_numeric_field("idx".try_into().unwrap(), 10, 0).build_with_dest(Dest::new());
+            AnyW::C(Writer::new(sw, tw))
+        } else {
+            AnyW::S(sw)
         };
         let mut i = 0;
         for (sk, s) in st.iter().enumerate() {
             let before = faulty.as_ref().map(|d| d.faults().len()).unwrap_or(0);
-            let r = match s {
-                Step::Write => {
+            let r = match (s, &mut w) {
+                (Step::Write, AnyW::S(w)) => {
                     let r = w.write_shape(&shapes[i]);
                     i += 1;
                     r
                 }
-                Step::Fin => w.finalize(),
+                (Step::Write, AnyW::C(w)) => {
+                    let r = w.write_shape_and_record(&shapes[i], &row(i));
+                    i += 1;
+                    r
+                }
+                (Step::Fin, AnyW::S(w)) => w.finalize(),
+                // the complete Writer has no finalize
+                (Step::Fin, AnyW::C(_)) => continue,
             };
             let hit = faulty.as_ref().map(|d| d.faults().len()).unwrap_or(0) > before;
             if hit {
@@ -137,8 +170,10 @@ fn run<K: Kind>(shapes: &[K], st: &[Step], with_shx: bool, fault: Option<(bool, 
                         if let Some(d) = &faulty {
                             d.heal();
                         }
-                        if let Err(e) = w.finalize() {
-                            fail!("finalize-not-retryable", "step #{}: finalize retried on a healed destination fails: {}", sk, err_str(&e));
+                        if let AnyW::S(w) = &mut w {
+                            if let Err(e) = w.finalize() {
+                                fail!("finalize-not-retryable", "step #{}: finalize retried on a healed destination fails: {}", sk, err_str(&e));
+                            }
                         }
                     } else {
                         ctx.class("fault-inside-write");
@@ -181,8 +216,9 @@ fn faults_k<K: Kind>(c: &FaultCase, ctx: &mut Ctx) -> Result<(), Fail> {
     if st.contains(&Step::Fin) {
         ctx.nontrivial();
     }
+    ctx.class(if c.route == 1 { "complete-writer" } else { "shape-writer" });
     let mut dummy = Ctx::default();
-    let clean = run(&shapes, &st, c.with_shx, None, &[], &mut dummy)?.expect("clean run completes");
+    let clean = run(&shapes, &st, c.with_shx, None, &[], c.route, c.kind, &mut dummy)?.expect("clean run completes");
     let mut runs = 1u64;
     for on_shx in [false, true] {
         if on_shx && !c.with_shx {
@@ -197,7 +233,7 @@ fn faults_k<K: Kind>(c: &FaultCase, ctx: &mut Ctx) -> Result<(), Fail> {
         for k in ks {
             for mode in [FaultMode::OneShot(k), FaultMode::Persistent(k)] {
                 runs += 1;
-                if let Some(out) = run(&shapes, &st, c.with_shx, Some((on_shx, mode)), &[], ctx)? {
+                if let Some(out) = run(&shapes, &st, c.with_shx, Some((on_shx, mode)), &[], c.route, c.kind, ctx)? {
                     ensure!(
                         out.shp == clean.shp && out.shx == clean.shx,
                         "retry-differs",
@@ -214,7 +250,7 @@ fn faults_k<K: Kind>(c: &FaultCase, ctx: &mut Ctx) -> Result<(), Fail> {
     schedules.push(c.chunks.clone());
     for sch in schedules {
         runs += 1;
-        let out = run(&shapes, &st, c.with_shx, None, &sch, &mut dummy)?.expect("short-write run completes");
+        let out = run(&shapes, &st, c.with_shx, None, &sch, c.route, c.kind, &mut dummy)?.expect("short-write run completes");
         ensure!(
             out.shp == clean.shp && out.shx == clean.shx,
             "short-write-differs",
